@@ -298,3 +298,40 @@ where
 {
     merge_into(vectors, |x| output.push(x));
 }
+
+// ---- ordered computations (collect_vec / collect / collect_into, and the eager materialisation inside a
+// transformation) must never go through the unordered collect_x kernels
+use crate::Fallible;
+use orx_split_vec::{Recursive, SplitVec};
+
+pub fn forbid_map_col_x<I, Out, Map, Fil>(_params: Params, _iter: I, _map: Map, _filter: Fil, _output: &mut SplitVec<Out, Recursive>)
+where
+    I: ConcurrentIterX,
+    Out: Send + Sync,
+    Map: Fn(I::Item) -> Out + Send + Sync,
+    Fil: Fn(&Out) -> bool + Send + Sync,
+{
+    assert!(false, "C01: an ordered computation went through the unordered collect_x kernel (map)");
+}
+
+pub fn forbid_filtermap_col_x<I, FO, Out, FilterMap, Fil>(_params: Params, _iter: I, _filter_map: FilterMap, _filter: Fil, _output: &mut SplitVec<Out, Recursive>)
+where
+    I: ConcurrentIterX,
+    FO: Fallible<Out> + Send + Sync,
+    Out: Send + Sync,
+    FilterMap: Fn(I::Item) -> FO + Send + Sync,
+    Fil: Fn(&Out) -> bool + Send + Sync,
+{
+    assert!(false, "C01: an ordered computation went through the unordered collect_x kernel (filter_map)");
+}
+
+pub fn forbid_flatmap_col_x<I, OutIter, Out, FlatMap, Fil>(_params: Params, _iter: I, _flat_map: FlatMap, _filter: Fil, _output: &mut SplitVec<Out, Recursive>)
+where
+    I: ConcurrentIterX,
+    OutIter: IntoIterator<Item = Out>,
+    Out: Send + Sync,
+    FlatMap: Fn(I::Item) -> OutIter + Send + Sync,
+    Fil: Fn(&Out) -> bool + Send + Sync,
+{
+    assert!(false, "C01: an ordered computation went through the unordered collect_x kernel (flat_map)");
+}
